@@ -179,6 +179,12 @@ impl Prop for Totality {
             scale = *r.pick(&[1e-300, 1e-100, 1e-30, 1e-8, 1e8, 1e30, 1e100, 1e250]);
             game = game.map_payoffs(&mut |x| x * scale);
         }
+        // chance weights are unnormalised: any positive finite magnitude is inside the contract
+        let mut wscale = 1.0;
+        if r.coin(0.06) {
+            wscale = *r.pick(&[1e-300, 1e-150, 1e150, 1e300, 8e307]);
+            game = game.map_weights(&mut |w| w * wscale);
+        }
         let mut edge = "none";
         let force_edge = std::env::var("VERIF_C05_FORCE_EDGE").is_ok();
         if r.coin(0.08) || force_edge {
@@ -236,7 +242,7 @@ impl Prop for Totality {
             fail_build,
             buggify: r.coin(0.8),
             sched: SchedSpec::swarm(r),
-            extra: json!({"edge": edge, "payoff_scale": scale}),
+            extra: json!({"edge": edge, "payoff_scale": scale, "weight_scale": wscale}),
         }
     }
 
